@@ -669,9 +669,34 @@ class LMDBStorage(BaseStorage):
         await self.validate_event(event, Config)
 
         if not event.is_ephemeral:
+            # the write happens later, on the writer thread: make sure now that
+            # it can succeed, and don't acknowledge or re-broadcast duplicates
+            self.check_storable(event)
+            if await self.get_event(event.id):
+                return event, False
             self.writer_queue.put(("add", [event]))
         await self.post_save(event)
         return event, True
+
+    def check_storable(self, event: Event):
+        """
+        Raise StorageError if the event cannot be written to the db
+        """
+        try:
+            max_key_size = self.db.max_key_size() - 38
+            for index in self.writer_thread.write_indexes:
+                if index is INDEXES["ids"]:
+                    encode_event(event)
+                    index.to_key(event.id)
+                    event.created_at.to_bytes(4, "big")
+                else:
+                    for key in index.convert(event):
+                        if len(key) > max_key_size:
+                            raise StorageError("invalid: tag value too long")
+        except StorageError:
+            raise
+        except Exception:
+            raise StorageError("invalid: event cannot be stored")
 
     async def post_save(self, event: Event, **kwargs):
         await self.notify_all_connected(event)
